@@ -21,6 +21,9 @@ pub mod flexi_error {
         open spec fn obeys_from_spec() -> bool { true }
         open spec fn from_spec(e: std::io::Error) -> FlexiLoggerError { FlexiLoggerError::OutputIo(e) }
     }
+    /// R46 SHIM for `std::io::Error::other(e)` (not used by the code as it is; its parameter type is a `dyn` with two auto traits)
+    #[verifier::external_body]
+    pub fn vio_error_other<E>(e: E) -> (r: std::io::Error) { unimplemented!() }
 }
 
 pub mod util {
@@ -570,11 +573,14 @@ pub mod state {
                     // C19: a rotation that could not be completed is reported (and the record still goes to the current file)
                     &&& (!rot_ok ==> super::util::reported(ErrorCode::LogFile))
                     &&& State::append_post(&s1, buf, new, ok)
+                    // C19: once the state is active the record's own write is attempted, whatever became of the rotation
+                    &&& write_attempted(buf)
                 }
             }
         }
     //@ fn src/writers/file_log_writer/state.rs impl State / fn write_buffer
     //@   ret r
+    //@   rule R46 *
     //@   props C01,C08,C09,C19,C15,C18,C06
     //@   req[write_buffer.pre.arith] old(self).arith_ok(buf@.len() as int) && old(self).highest_ok()
     //@   req[write_buffer.pre.report] forall|c: ErrorCode| #[trigger] super::util::reportable(c) <==> c is LogFile
